@@ -117,6 +117,9 @@ class GhostStream:
     def randn(self, *shape):
         return self._draw("normal", shape if shape else None)
 
+    def standard_normal(self, size=None):
+        return self._draw("normal", size)
+
     def uniform(self, low=0.0, high=1.0, size=None):
         return self._draw("random", size) * (high - low) + low
 
@@ -180,7 +183,7 @@ def make_random_module():
         def f(*a, **k):
             return getattr(GLOBAL, name)(*a, **k)
         return f
-    for nm in ("random", "rand", "randn", "normal", "uniform", "seed", "random_sample", "multinomial"):
+    for nm in ("random", "rand", "randn", "normal", "uniform", "seed", "random_sample", "multinomial", "standard_normal"):
         setattr(m, nm, _g(nm))
     m.Generator = Generator
     m.MT19937 = MT19937
@@ -226,7 +229,25 @@ def make_stats_module():
     m.multinomial = mult
 
     class _UG:
-        def rvs(self, *a, **k):
-            raise Unsupported("scipy.stats.unitary_group")
+        """scipy.stats.unitary_group: a Haar-random unitary is one ghost draw of dim*dim complex entries from the given stream
+        (nothing about the matrix is assumed, not even unitarity)"""
+
+        def rvs(self, dim, size=1, random_state=None):
+            stream = random_state
+            if stream is None or isinstance(stream, types.ModuleType):
+                stream = GLOBAL
+            if isinstance(stream, int):
+                stream = GhostStream(("seed", stream))
+            if not isinstance(stream, GhostStream):
+                raise Unsupported(f"random_state {stream!r}")
+            pos = stream.pos
+            stream.pos += 1
+            DRAW_LOG.append((stream.sid, pos, "unitary", dim))
+            out = NP.zeros((dim, dim), NP.complex128)
+            I = Sym.const(1j)
+            for i in range(dim):
+                for j in range(dim):
+                    out.a[i, j] = _draw_symbol(stream.sid, pos, 2 * (i * dim + j), "unitary") + I * _draw_symbol(stream.sid, pos, 2 * (i * dim + j) + 1, "unitary")
+            return out
     m.unitary_group = _UG()
     return m
